@@ -213,7 +213,11 @@ def artefact_case(case):
     try:
         if kind == "measurements":
             shots = [tuple(s) for s in case["shots"]]
-            m = M.Measurements(list(shots))
+            # entry kinds per shot: what runners hand over is plain ints, numpy integers (np.int8 / np.int64 rows of an array) - or both, when shots of two sources are pooled
+            mk = {"py": int, "np8": np.int8, "np64": np.int64, "npu": np.uint8}
+            kinds = case.get("kinds")
+            given = [tuple(mk[kinds[i % len(kinds)] if kinds[i % len(kinds)] != "alt" else ("py", "np64")[j % 2]](x) for j, x in enumerate(sh)) for i, sh in enumerate(shots)] if kinds else list(shots)
+            m = M.Measurements(list(given))
             outs = with_loaders(wd, "m.json", m.save, M.Measurements.load_from_file)
             for nm, got in outs:
                 if [tuple(b) for b in got.bitstrings] != shots or any(not isinstance(b, tuple) for b in got.bitstrings):
@@ -355,6 +359,8 @@ def artefacts():
     out = [{"kind": "measurements", "shots": s} for s in ([], [[0]], [[1, 0, 1]], [[0, 1], [1, 1], [0, 1]], [[0] * 12] * 3 + [[1] * 12],
                                                           [[1, 0]] * 150 + [[0, 1]] * 151 + [[1, 1]], [[0] * 69 + [1], [1] + [0] * 69, [0] * 69 + [1]],
                                                           [[(i >> b) & 1 for b in range(5)] for i in range(32)], [[2, 0, 13], [0, 2, 13]])]
+    for kinds in (["np8"], ["np64"], ["py", "np64"], ["np8", "py"], ["py", "py", "npu"], ["alt"], ["py", "alt"]):
+        out += [{"kind": "measurements", "shots": s, "kinds": kinds} for s in ([[1, 0, 1]], [[0, 1], [1, 1], [0, 1]], [[1, 0]] * 5 + [[0, 1]] * 4, [[(i >> b) & 1 for b in range(3)] for i in range(8)])]
     vals = [A([0.5, -1.25, 3.0]), A([0.5, -1.0], [0.25, 0.0]), A([1e-09]), A([0.0, 0.0], [0.0, 0.0]), A([])]
     f1 = A([[1.0, 0.5], [0.5, 1.0]])
     f2 = A([[0.25]])
